@@ -6,8 +6,10 @@
   the table obligations over the generated struct description.  The scalar fragment of the full round
   trip is `roundtrip_scalar_fragment`; the round trip of whole schema trees (every keyword; no nil child) is
   `roundtrip_tree` (helper lemmas: JSV/Proofs/MshTree.lean); what is missing for the full statement is listed
-  after it.  For reference-free trees the tree read back accepts the same instances: `roundtrip_tree_meaning_partial`
-  (helper lemmas: JSV/Proofs/IsoValid.lean).
+  after it.  The tree read back accepts the same instances: `roundtrip_tree_meaning_partial` (reference-free trees, any
+  tables; helper lemmas: JSV/Proofs/IsoValid.lean) and `roundtrip_tree_meaning` (trees with references, both sides
+  resolved; helper lemmas: JSV/Proofs/ResIso*.lean, ResIsoNorm.lean — Resolve commutes with a renaming of node ids and
+  does not see the normal forms).
 -/
 import JSV.Proofs.MshRound
 import JSV.Proofs.MshScalar
@@ -318,9 +320,9 @@ theorem normal_forms_invisible (env : Spec.Env) (st : Store) (hst : Refine.Store
     up to the order of the evaluated-property list, in particular the same verdict, with every amount of fuel.
     Proof: the normal forms are invisible (`normal_forms_invisible`), and validity is invariant under the renaming of node
     ids that `Go.TreeEq` describes (`Iso.evalFuel_sim`).
-    PARTIAL: trees containing `$ref` / `$dynamicRef` are not covered — their meaning depends on what `Resolve` computes
-    for each of the two trees; the statement then needs `Resolve` on both sides and "the two resolutions are related"
-    (`Iso.TablesSim`), not proved. -/
+    PARTIAL: trees containing `$ref` / `$dynamicRef` are not covered by THIS statement (arbitrary, unrelated tables) —
+    their meaning depends on what `Resolve` computes for each of the two trees; for them see `treeEq_meaning` /
+    `roundtrip_tree_meaning` below (`Resolve` on both sides; the two resolutions are related, `Go.RIso.treeEq_resolves`). -/
 theorem treeEq_meaning_partial {st st' : Store} {d : Nat} {a b : NodeId} (hte : Go.TreeEq st st' d a b)
     (hfree : Go.treeAll Iso.noRefs st d a = true) (hst : Refine.StoreWF st) (env env' : Spec.Env)
     (hd : env.draft = env'.draft) (hre : env.reMatch = env'.reMatch) (fuel : Nat) (inst : Json)
@@ -459,10 +461,13 @@ theorem roundtrip_tree_meaning (st : Store) (id : NodeId) (j : Json) (st₂ : St
     treeEq_meaning st st₂' env hnd hk hs hs' hte hok fuel base rs rs' h₁ h₂⟩
 
 /-! ### What is missing for the full round trip
-  * `roundtrip_tree_meaning` (the two trees accept the same instances) is proved for reference-free trees only
-    (`roundtrip_tree_meaning_partial`, through the invariance of validity under a renaming of NodeIds,
-    `Iso.evalFuel_sim`); for trees with `$ref` / `$dynamicRef` the statement needs `Resolve` of both stores and
-    "the two resolutions are related along `Go.TreeEq`"; `treeEq_marshal` is the corresponding statement for MarshalJSON;
+  * `roundtrip_tree_meaning` (the two trees accept the same instances, references included) is proved for the two trees
+    EACH RESOLVED ON ITS OWN, self-contained resolution (`Go.RIso.NoDocs`: documents fetched through a Loader are not
+    covered); that `Resolve` of the tree read back returns normally whenever `Resolve` of the original does is
+    `treeEq_resolves_partial`, which assumes that checkStructure accepts the tree read back (UnmarshalJSON decodes every
+    JSON object into a fresh `Schema`: not derived from the model of UnmarshalJSON; for CloneSchemas the corresponding
+    fact is `C20.clone_is_tree`); the evaluator-level corollary (`Go.validateFuel`) is stated for reference-free trees
+    only (`treeEq_validate_same_partial`); `treeEq_marshal` is the corresponding statement for MarshalJSON;
   * nil children (`null` elements of schema lists / maps come back as nil pointers, a nil `*Schema` field that is
     set explicitly cannot be told from an absent one);
   * `any`-typed values (enum, const, examples, Extra) are covered in the form encoding/json writes (`Go.jsonSorted`);
